@@ -15,4 +15,13 @@ if r.error:
         print(out[i:j if j > 0 else i + 1500][:1500])
     else:
         i = out.find("Error:")
-        print(out[i:i + 3500])
+        print(out[i:i + 300])
+        acts = re.findall(r"^State (\d+): <(\w+)", out, re.M)
+        print("trace actions:", " ".join(a for _, a in acts))
+        j = out.rfind("\nState ")
+        k = out.find("\n\n", j + 1)
+        last = out[j:k]
+        want = set(sys.argv[5].split(",")) if len(sys.argv) > 5 else None
+        for ln in last.splitlines():
+            if want is None or any(ln.startswith("/\\ " + w + " ") for w in want) or ln.startswith("State"):
+                print(ln[:200])
